@@ -172,7 +172,6 @@ func (db *DB) registerTable(table TableMeta) error {
 	db.updateWriteTxnPoolLocked(len(root))
 
 	db.root.Store(&root)
-	verifHook("register.stored", db)
 	return nil
 }
 
